@@ -101,7 +101,7 @@ func (v *Verifier) tryReplay(prop, name string, g *Group, cl *Claim, repo string
 			continue
 		}
 		parts := strings.Split(spec, "|")
-		if len(parts) != 3 && len(parts) != 6 {
+		if len(parts) != 3 && (len(parts) < 6 || (len(parts)-4)%2 != 0) {
 			continue
 		}
 		vdir := envOr("VERIF_DIR", "/verif")
@@ -115,25 +115,27 @@ func (v *Verifier) tryReplay(prop, name string, g *Group, cl *Claim, repo string
 		target := filepath.Join(repo, parts[0], "zz_gowp_replay_test.go")
 		ovText := fmt.Sprintf(`{"Replace":{%q:%q}}`, target, src)
 		instrNote := ""
-		if len(parts) == 6 {
-			// schedule forcing: insert one gate call after the anchor line in an overlay copy of the source file
+		if len(parts) >= 6 {
+			// schedule forcing: insert gate calls, each after its anchor line, in an overlay copy of the source file
 			srcFile := filepath.Join(repo, parts[3])
 			data, err := os.ReadFile(srcFile)
 			if err != nil {
 				return "replay: " + err.Error(), false
 			}
 			lines := strings.Split(string(data), "\n")
-			done := false
-			for i, l := range lines {
-				if strings.Contains(l, parts[4]) {
-					lines = append(lines[:i+1], append([]string{parts[5]}, lines[i+1:]...)...)
-					done = true
-					instrNote = fmt.Sprintf("overlay instrumentation of %s: inserted %q after line %d (%s)\n", parts[3], parts[5], i+1, strings.TrimSpace(l))
-					break
+			for g := 4; g+1 < len(parts); g += 2 {
+				done := false
+				for i, l := range lines {
+					if strings.Contains(l, parts[g]) {
+						lines = append(lines[:i+1], append([]string{parts[g+1]}, lines[i+1:]...)...)
+						done = true
+						instrNote += fmt.Sprintf("overlay instrumentation of %s: inserted %q after line %d (%s)\n", parts[3], parts[g+1], i+1, strings.TrimSpace(l))
+						break
+					}
 				}
-			}
-			if !done {
-				return "replay: anchor " + parts[4] + " not found in " + parts[3], false
+				if !done {
+					return "replay: anchor " + parts[g] + " not found in " + parts[3], false
+				}
 			}
 			inst := filepath.Join(scratch, "instrumented.go")
 			os.WriteFile(inst, []byte(strings.Join(lines, "\n")), 0o644)
